@@ -308,6 +308,18 @@ def run_impl(case):
                 if T.get_in(d3, p, missing) != 'NEW':
                     fails.append('update_in: addressed entry not updated')
                 _frame(T, d0, d3, p, fails, 'update_in')
+                # … and `f` is applied to what `get_in` reads there (`{}` for an entry that does not exist yet):
+                # C17.getIn_updateIn on the implementation, with an `f` that looks at its argument
+                seen = []
+                try:
+                    T.update_in(copy.deepcopy(d0), p, lambda cur: (seen.append(copy.deepcopy(cur)), 'NEW')[1])
+                    cur0 = T.get_in(copy.deepcopy(d0), p, missing)
+                except Exception:
+                    seen = []
+                if seen:
+                    want = {} if cur0 is missing else cur0
+                    if seen[0] != want or type(seen[0]) is not type(want):
+                        fails.append(f'update_in: f was handed {seen[0]!r} where get_in reads {want!r}')
                 # it *returns* the updated dictionary: the one handed in is as before, so that a second
                 # alternative derived from the same base differs from it in its own subtree only
                 if base != d0:
